@@ -102,7 +102,8 @@ impl Tunnel {
             x = shutdown_notification.wait() => {
                 match x {
                     Ok(_) => {
-                        shutdown::close_within_bound(self.downstream.graceful_shutdown()).await
+                        let protocol = self.downstream.protocol();
+                        shutdown::close_within_bound(protocol, self.downstream.graceful_shutdown()).await
                     }
                     Err(e) => Err(io::Error::new(ErrorKind::Other, format!("{}", e))),
                 }
